@@ -843,3 +843,93 @@ Print Assumptions C13_normalize_run_store.
 Print Assumptions C13_normalize_refines.
 Print Assumptions C13_normalize_merged_view_not_raw.
 Print Assumptions C13_normalize_spec_example.
+
+(** ** the read-only maps of a document type: the exception class "no modification allowed"
+
+    The only mutators of crate [dom] that answer [NoModificationAllowedErr] are [set_named_item] / [remove_named_item]
+    of the maps [DocumentType::entities()] / [notations()].  They are modelled outside [op] (Model/DomReadOnly.v:
+    [ro_op], [step_ro], outcomes [xoutcome] = the outcomes of [step] + the one class [step] never answers) and
+    specified by Spec/DomL1ReadOnly.v ([dom_step_ro], reading R8: both maps are readonly, the readonly test comes
+    first -- for [removeNamedItem] of a name that is NOT in the map the letter of Level 1 would be NOT_FOUND_ERR,
+    Level 2 lists both codes).  Histories [xop] mix them with the 27 operations and [normalize].
+
+    - effect / exception: [C13_readonly_refines] -- on every world with the tree invariant (so on every reachable
+      one, [C13_readonly_refines_reachable]) and for every such call, the abstraction commutes and the outcome class
+      is the answer of [dom_step_ro]; [C13_readonly_outcome]: that answer is NO_MODIFICATION_ALLOWED_ERR exactly
+      when the call can be written ([ro_applicable]: the receiver gives a document type and the argument exists),
+      [ANotOffered] otherwise; it depends neither on the name nor on the argument nor on the map.
+    - failure atomicity: [C13_readonly_world_unchanged] (no hypothesis) and, along the extended histories,
+      [C13_failure_atomic_reachable_with_readonly] (side condition on the OTHER calls as in
+      [C13_failure_atomic_reachable_with_normalize]).
+    - no panic: [C13_readonly_no_panic], [C13_run_x_no_panic] (outside D42, as [C13_run_n_no_panic]). *)
+From XmlRs Require Import Model.DomReadOnly Proofs.DomReadOnly Proofs.DomReadOnlyC13.
+From XmlRs Require Spec.DomL1ReadOnly.
+
+Theorem C13_readonly_world_unchanged : forall w o, fst (step_ro w o) = w.
+Proof. exact step_ro_world. Qed.
+
+Theorem C13_readonly_outcome : forall w o,
+  snd (step_ro w o) = if ro_applicable w o then XFailed XNoModificationAllowedErr else XNotApplicable.
+Proof. exact step_ro_outcome. Qed.
+
+Theorem C13_readonly_refines : forall w o, WInv w ->
+  abs (fst (step_ro w o)) = fst (DomL1ReadOnly.dom_step_ro (abs w) (abs_ro_op o))
+  /\ xoutcome_class (snd (step_ro w o)) = snd (DomL1ReadOnly.dom_step_ro (abs w) (abs_ro_op o)).
+Proof. exact step_ro_refines. Qed.
+
+Theorem C13_readonly_refines_reachable : forall init xs o, WInv init ->
+  abs (fst (step_ro (run_x init xs) o)) = fst (DomL1ReadOnly.dom_step_ro (abs (run_x init xs)) (abs_ro_op o))
+  /\ xoutcome_class (snd (step_ro (run_x init xs) o)) = snd (DomL1ReadOnly.dom_step_ro (abs (run_x init xs)) (abs_ro_op o)).
+Proof. exact step_ro_refines_reachable. Qed.
+
+Theorem C13_readonly_spec_answer : forall w o, WInv w ->
+  DomL1ReadOnly.dom_step_ro (abs w) (abs_ro_op o) =
+  (abs w, if ro_applicable w o then DomL1.ARaised (DomL1.Dom DomCharData.NoModificationAllowedErr) else DomL1.ANotOffered).
+Proof. exact spec_ro_answer. Qed.
+
+Theorem C13_readonly_spec_state_unchanged : forall a o, fst (DomL1ReadOnly.dom_step_ro a o) = a.
+Proof. exact dom_step_ro_state. Qed.
+
+Theorem C13_readonly_no_panic : forall w o, snd (step_ro w o) <> XPanicked.
+Proof. exact step_ro_no_panic. Qed.
+
+Theorem C13_run_x_no_panic : forall xs w, forallb (fun o => negb (Known42 o)) (plain_ops (nops_of xs)) = true ->
+  forall pre o post, xs = pre ++ o :: post -> snd (step_x (run_x w pre) o) <> XPanicked.
+Proof. exact run_x_no_panic. Qed.
+
+Theorem C13_failure_atomic_reachable_with_readonly : forall init xs o e,
+  WInv init -> atomic_side o ->
+  snd (step_x (run_x init xs) o) = XFailed e -> fst (step_x (run_x init xs) o) = run_x init xs.
+Proof. exact failure_atomic_reachable_with_readonly. Qed.
+
+Theorem C13_inv2_reachable_with_readonly : forall init xs, WInv2 init -> WInv2 (run_x init xs).
+Proof. exact inv2_reachable_with_readonly. Qed.
+
+(** non-trivial instance (world and history of Proofs/DomReadOnly.v): the ten outcomes, and the specification's
+    answers on the abstraction of the world *)
+Example C13_readonly_example :
+  WInv ro_world
+  /\ outcomes_x ro_world ro_ops =
+     [ XFailed XNoModificationAllowedErr; XFailed XNoModificationAllowedErr; XNotApplicable;
+       XFailed XNoModificationAllowedErr; XFailed XNoModificationAllowedErr; XNotApplicable; XNotApplicable;
+       XOk (RNode (0, 2)); XNotApplicable; XFailed XNoModificationAllowedErr ]
+  /\ snd (DomL1ReadOnly.dom_step_ro (abs ro_world) (abs_ro_op (MapRemoveNamedItem MEntities (0, 1) [122])))
+     = DomL1.ARaised (DomL1.Dom DomCharData.NoModificationAllowedErr)
+  /\ snd (DomL1ReadOnly.dom_step_ro (abs ro_world) (abs_ro_op (MapSetNamedItem MEntities (0, 1) (1, 1) (ByName [117]) false)))
+     = DomL1.ANotOffered.
+Proof.
+  split; [exact ro_world_inv|]. split; [exact ro_example_outcomes|].
+  destruct ro_example13 as [_ [A [_ B]]]. split; [exact A | exact B].
+Qed.
+
+Print Assumptions C13_readonly_world_unchanged.
+Print Assumptions C13_readonly_outcome.
+Print Assumptions C13_readonly_refines.
+Print Assumptions C13_readonly_refines_reachable.
+Print Assumptions C13_readonly_spec_answer.
+Print Assumptions C13_readonly_spec_state_unchanged.
+Print Assumptions C13_readonly_no_panic.
+Print Assumptions C13_run_x_no_panic.
+Print Assumptions C13_failure_atomic_reachable_with_readonly.
+Print Assumptions C13_inv2_reachable_with_readonly.
+Print Assumptions C13_readonly_example.
